@@ -39,6 +39,10 @@ type BConn struct {
 	end      string // eof / rst / err
 	endSeq   uint64
 	marker   bool
+	// after the peer's EOF the backend keeps writing for a moment: a peer that closed the
+	// connection answers with a reset, a peer that only shut down its sending side takes the bytes
+	postEOFProbed   bool
+	postEOFWritable bool
 }
 
 func NewBackend(ip string) (*Backend, error) {
@@ -113,6 +117,20 @@ func (c *BConn) readLoop() {
 		c.cond.Broadcast()
 		c.mu.Unlock()
 		if err != nil {
+			if err == io.EOF {
+				ok := true
+				for i := 0; i < 4 && ok; i++ {
+					c.C.SetWriteDeadline(time.Now().Add(time.Second))
+					if _, werr := c.C.Write([]byte{0x5a}); werr != nil {
+						ok = false
+					}
+					time.Sleep(25 * time.Millisecond)
+				}
+				c.mu.Lock()
+				c.postEOFProbed, c.postEOFWritable = true, ok
+				c.cond.Broadcast()
+				c.mu.Unlock()
+			}
 			// the peer is gone: release the descriptor (long runs accept 100 000s of connections)
 			c.C.Close()
 			return
@@ -299,4 +317,18 @@ func (c *BConn) WaitBytesProgress(n int, stall time.Duration) (got int, stalled 
 		}
 		last = g
 	}
+}
+
+// HalfClosedByPeer waits for the post-EOF write probe of a connection that ended with EOF and reports
+// whether the peer still took bytes 100 ms after its EOF (it only shut down its sending side).
+func (c *BConn) HalfClosedByPeer() bool {
+	deadline := time.Now().Add(2 * time.Second)
+	c.mu.Lock()
+	defer c.mu.Unlock()
+	for c.ended && c.end == "eof" && !c.postEOFProbed && time.Now().Before(deadline) {
+		c.mu.Unlock()
+		time.Sleep(10 * time.Millisecond)
+		c.mu.Lock()
+	}
+	return c.postEOFProbed && c.postEOFWritable
 }
